@@ -35,12 +35,13 @@ ASSUMPTIONS = ['a stream socket never returns more than asked, never reorders or
                'send() accepts between 1 and len(data) bytes when there is room',
                'oracle: independent model over the remaining stream (what happens when the whole stream arrives at once)',
                'sizes passed to recv_size/peek/recv are >= 1; retries after Timeout / EWOULDBLOCK repeat the same call',
+               'threads mode: 2-3 caller threads receive from one BufferedSocket in blocking mode; pre-emption points are the lock operations and every socket call (not every bytecode); the calls must be explainable by SOME order that keeps each thread\'s own order (each call atomic on the stream), and nothing may be lost',
                'netstrings: C12 promises retry-after-Timeout for the recv_* family only, read_ns is not retry-safe in mid-frame; the simulated reader therefore sees gaps longer than its timeout only between frames']
 
 SELFTEST_MUTANT = 'recv-split-off-by-one'
 REQUIRED_PROBES = ['delimiter_straddles_recv', 'size_met_at_recv_edge', 'timeout_with_partial_data',
                    'ewouldblock_with_partial_data', 'message_too_long', 'partial_send', 'send_timeout_with_unsent',
-                   'ns_roundtrip_frames', 'timeout', 'send_timeout']
+                   'ns_roundtrip_frames', 'timeout', 'send_timeout', 'threads_interleaved_on_one_socket']
 su = None   # boltons.socketutils, set by setup()
 
 DELIMS = [b'|', b'\n', b'\r\n', b'||', b'\r\n\r\n', b'ab', b'aba', b'|a|', b'\r', b'a|']
@@ -139,8 +140,34 @@ def _gen_split(rng, n=0):
     return [rng.choice([0, 1, 1, 2, 3, 5, 8]) for _ in range(rng.randint(2, 6))]
 
 
+def _gen_threads(rng, tier):
+    """Two or three caller threads receive from one BufferedSocket (blocking mode)."""
+    stream = _gen_stream(rng, tier)
+    delims = rng.sample(DELIMS, rng.randint(1, 2))
+    deliveries = [[0.0, n] for _g, n in _gen_cuts(rng, stream, _find_all(stream, delims), None)]
+    threads = []
+    for _t in range(rng.choice([2, 2, 3])):
+        ops = []
+        for _ in range(rng.randint(1, 3)):
+            k = rng.random()
+            if k < 0.35:
+                ops.append(['recv_size', _gen_size(rng, max(1, len(stream) // 3))])
+            elif k < 0.65:
+                ops.append(['recv', _gen_size(rng, max(1, len(stream) // 3))])
+            elif k < 0.85:
+                ops.append(['recv_until', rng.choice(delims).hex(), 'unset', rng.random() < 0.4])
+            else:
+                ops.append(['peek', _gen_size(rng, max(1, len(stream) // 3))])
+        threads.append(ops)
+    return {'mode': 'threads', 'stream': stream.hex(), 'deliveries': deliveries, 'recv_split': _gen_split(rng, len(stream)),
+            'maxsize': 32768, 'recvsize': rng.choice([None, 1, 2, 3, 7, 64]), 'threads': threads,
+            'sched': {'kind': 'random', 'seed': rng.getrandbits(32), 'p': rng.choice([0.2, 0.5, 0.8])}}
+
+
 def gen_case(rng, tier):
     r = rng.random()
+    if r < 0.04:
+        return _gen_threads(rng, tier)
     if r < 0.62:
         return _gen_recv(rng, tier)
     if r < 0.84:
@@ -323,7 +350,149 @@ def describe_case(case):
 # ------------------------------------------------------------------------------
 # execution
 
+class _YieldingSock:
+    """The socket as seen by BufferedSocket in the threaded mode: every call is a pre-emption point."""
+
+    def __init__(self, sock, sched):
+        self._sock, self._sched = sock, sched
+
+    def __getattr__(self, name):
+        val = getattr(self._sock, name)
+        if not callable(val):
+            return val
+        sched = self._sched
+
+        def call(*a, **k):
+            if sched.cur is not None:
+                sched.yield_point(('sock', name))
+            try:
+                return val(*a, **k)
+            finally:
+                if sched.cur is not None:
+                    sched.yield_point(('sock', name + '-return'))
+        return call
+
+
+def _merges(seqs):
+    """All interleavings of the per-thread op records that keep each thread's own order."""
+    if not any(seqs):
+        yield []
+        return
+    for i, sq in enumerate(seqs):
+        if sq:
+            rest = seqs[:i] + [sq[1:]] + seqs[i + 1:]
+            for tail in _merges(rest):
+                yield [sq[0]] + tail
+
+
+def _run_threads(case):
+    from engines import threadsim
+    out = core.Outcome()
+    log = core.EventLog(keep=False)
+    threadsim.enable_without_tracing()
+    stream = bytes.fromhex(case['stream'])
+    nthreads = len(case['threads'])
+    sched = threadsim.Scheduler(threadsim.make_policy(case['sched'], nthreads), log, step_cap=4000 + 40 * len(stream))
+    clock = SimClock(log, 0.0)
+    _install_clock(clock)
+    sock = SimSocket(clock, log, stream=stream, inbound=case['deliveries'], close_gap=0.0,
+                     recv_split=case['recv_split'], call_cap=40 * (len(stream) + 10))
+    real_rlock = su.RLock
+    su.RLock = lambda *a, **k: threadsim.SimRLock(sched)
+    try:
+        kw = {'timeout': None, 'maxsize': case['maxsize']}
+        if case['recvsize'] is not None:
+            kw['recvsize'] = case['recvsize']
+        bs = su.BufferedSocket(_YieldingSock(sock, sched), **kw)
+    finally:
+        su.RLock = real_rlock
+    recs = [[] for _ in range(nthreads)]
+
+    def program(tid, ops):
+        def run():
+            for i, op in enumerate(ops):
+                sched.yield_point(('invoke', tid, i))
+                try:
+                    res = ('ok', bytes(_call(bs, op)))
+                except threadsim.SimAbort:
+                    raise
+                except su.ConnectionClosed:
+                    res = ('ConnectionClosed', None)
+                except su.MessageTooLong:
+                    res = ('MessageTooLong', None)
+                except StepCapExceeded:
+                    res = ('StepCapExceeded', None)
+                except Exception as e:
+                    res = ('exc', '%s: %s' % (type(e).__name__, e))
+                recs[tid].append((op, res))
+                log.add('ret', tid, i, repr(res))
+                sched.yield_point(('return', tid, i))
+        return run
+
+    for tid, ops in enumerate(case['threads']):
+        sched.spawn(program(tid, ops))
+    reason = sched.run()
+    out.steps = sched.step
+    out.sim_time = float(sched.step)
+    if sched.contended:
+        out.probe('recv_lock_contended', sched.contended)
+    if reason == 'deadlock':
+        out.fail('deadlock', sched.step, 'caller threads of one BufferedSocket block each other for ever', mode='threads')
+    elif reason == 'no-progress':
+        out.fail('no-progress', sched.step, 'more than %d scheduler steps' % sched.step_cap, mode='threads')
+    if out.violation is None and any(l.owner is not None for l in sched.locks):
+        out.fail('lock-leaked', sched.step, 'all caller threads finished but a BufferedSocket lock is still held', mode='threads')
+    if out.violation is None:
+        for tid, rr in enumerate(recs):
+            for op, res in rr:
+                if res[0] in ('exc', 'StepCapExceeded'):
+                    out.fail('unexpected-exception', 0, 'thread %d %r: %r' % (tid, op, res), mode='threads')
+                    break
+            if out.violation:
+                break
+    if out.violation is None:
+        rest = bytes(bs.getrecvbuffer()) + sock.undelivered()
+        ok = False
+        tried = 0
+        for order in _merges([list(r) for r in recs]):
+            tried += 1
+            R = stream
+            good = True
+            for op, res in order:
+                exp = _expected(op, R, case['maxsize'])
+                if exp[0] == 'prefix':
+                    v = res[1] if res[0] == 'ok' else None
+                    if v is None or len(v) > op[1] or not R.startswith(v) or (not v and R):
+                        good = False
+                        break
+                    R = R[len(v):]
+                elif exp[0] == 'ok':
+                    if res != ('ok', exp[1]):
+                        good = False
+                        break
+                    R = R[exp[2]:]
+                elif res[0] != exp[0]:
+                    good = False
+                    break
+            if good and R == rest:
+                ok = True
+                break
+        if not ok:
+            out.fail('threads-not-serializable', 0,
+                     'no order of the calls of %d threads explains what they received from stream %r: %s; buffered+undelivered %r '
+                     '(%d interleavings tried)' % (nthreads, stream[:60], ['T%d %r -> %r' % (t, o, r) for t, rr in enumerate(recs) for o, r in rr],
+                                                   rest[:60], tried), mode='threads')
+        elif sched.switches:
+            out.probe('threads_interleaved_on_one_socket')
+            out.nontrivial.append(core.h64(['threads', case['stream'], case['threads'], case['deliveries'],
+                                            [(f, t) for _s, f, t, _w in sched.switches]]))
+    out.digest = log.digest()
+    return out
+
+
 def run_case(case):
+    if case.get('mode') == 'threads':
+        return _run_threads(case)
     mode = case['mode']
     if mode == 'recv':
         return _run_recv(case)
@@ -874,6 +1043,33 @@ def _run_ns(case):
 
 def shrink(case, fails):
     c = dict(case)
+    if c['mode'] == 'threads':
+        # the schedule is re-searched for every candidate: a smaller program needs other switch points
+        from simkit.core import ddmin
+        best = [c]
+
+        def fss(cand):
+            for seed in range(12):
+                for p in (0.5, 0.2, 0.8):
+                    c2 = dict(cand, sched={'kind': 'random', 'seed': seed, 'p': p})
+                    if fails(c2):
+                        best[0] = c2
+                        return True
+            return False
+
+        for t in range(len(c['threads'])):
+            def test(sub, t=t):
+                ths = [list(x) for x in best[0]['threads']]
+                ths[t] = list(sub)
+                return fss(dict(best[0], threads=ths))
+            ddmin(list(best[0]['threads'][t]), test)
+        ths = [t for t in best[0]['threads'] if t]
+        if ths and len(ths) < len(best[0]['threads']):
+            fss(dict(best[0], threads=ths))
+        shrinkers.shrink_hex_field(best[0], 'stream', fss)
+        for simple in ({'recv_split': [0]}, {'recvsize': None}):
+            fss(dict(best[0], **simple))
+        return best[0]
     if c['mode'] == 'recv':
         c = shrinkers.shrink_list_field(c, 'ops', fails)
         c = shrinkers.shrink_hex_field(c, 'stream', fails)
